@@ -96,7 +96,12 @@ fn lambert_w(x: f64) -> f64 {
         }
         let exp_w = w.exp();
         let f = w * exp_w - x;
-        let step = f / (exp_w * (w + 1.0) - (w + 2.0) * f / (2.0 * w + 2.0));
+        let slope = exp_w * (w + 1.0) - (w + 2.0) * f / (2.0 * w + 2.0);
+        let mut step = f / slope;
+        if !step.is_finite() || !slope.is_finite() {
+            // w * e^w or its slope overflows next to f64::MAX: take the step on w + ln(w) = ln(x) instead
+            step = (w + w.ln() - x.ln()) / (1.0 + 1.0 / w);
+        }
         if !step.is_finite() {
             break;
         }
